@@ -1546,3 +1546,209 @@ Proof.
     as [_ [m'' [k'' [R2 [E _]]]]]. exists m'', k''. split; assumption.
 Qed.
 End Idem.
+
+(** ------------------------------------------------------------------ who satisfies the hypothesis *)
+(** a kernel without any GLX-owned chain or set satisfies restart_pre for every cluster without K5d *)
+Lemma fresh_restart_pre H host c k :
+  fresh k = true -> conflicting_flags H c = false -> restart_pre H host c k = true.
+Proof.
+  intros Hf Hc. pose proof Hf as Hf'. unfold fresh in Hf'. rewrite !andb_true_iff in Hf'. destruct Hf' as [[Hk C1] C2].
+  rewrite forallb_forall in C1, C2.
+  assert (forall x, has_chain x (k_filter k) = true -> has_prefix glx x = false) as G1.
+  { intros x Hx. apply has_chain_In in Hx. apply negb_true_iff. apply (C1 x Hx). }
+  assert (forall n, In n (set_names (k_sets k)) -> has_prefix glx n = false) as G2.
+  { intros n Hn. apply negb_true_iff. apply (C2 n Hn). }
+  assert (forall x, has_prefix glx x = true -> tlookup x (k_filter k) = None) as G1'.
+  { intros x Hx. apply has_chain_false. destruct (has_chain x (k_filter k)) eqn:E; [|reflexivity]. apply G1 in E. congruence. }
+  assert (forall e, In e (k_filter k) -> has_prefix glx (fst e) = false) as G3.
+  { intros e He. apply G1. apply has_chain_In. apply in_map. exact He. }
+  unfold restart_pre, partial_pre. rewrite Hk, Hc. cbn [negb andb].
+  rewrite !andb_true_iff, !negb_true_iff. repeat split.
+  - unfold stale_referenced. apply existsb_false. intros n Hn. apply has_chain_In in Hn. apply G1 in Hn.
+    rewrite (glx_false_plcy n Hn). reflexivity.
+  - unfold stale_pod_state. rewrite (G1' ingress_chain eq_refl), (G1' egress_chain eq_refl), !orb_false_r.
+    apply existsb_false. intros n Hn. apply has_chain_In in Hn. apply G1 in Hn. rewrite (glx_false_pod n Hn). reflexivity.
+  - unfold nomatch_flip. apply existsb_false. intros cs Hcs.
+    destruct (slookup (cs_name cs) (k_sets k)) eqn:E; [|reflexivity].
+    assert (In (cs_name cs) (set_names (k_sets k))) as Hin by (apply slookup_In_names; congruence).
+    apply G2 in Hin. rewrite (compile_names_glx H c cs Hcs) in Hin. discriminate.
+  - unfold glx_shape. rewrite !andb_true_iff. repeat split; apply forallb_forall; intros e He.
+    + unfold owned_chain. rewrite (G3 e He). reflexivity.
+    + unfold kernel_consistent in Hk. rewrite !andb_true_iff in Hk. destruct Hk as [_ Cfor]. rewrite forallb_forall in Cfor.
+      specialize (Cfor e He). unfold owned_chain in Cfor at 1. rewrite (G3 e He) in Cfor. cbn [orb] in Cfor.
+      apply orb_true_iff. right. apply forallb_forall. intros r Hr. rewrite forallb_forall in Cfor.
+      specialize (Cfor r Hr). apply andb_true_iff in Cfor. exact (proj2 Cfor).
+    + rewrite (glx_false_pod _ (G3 e He)). reflexivity.
+    + destruct (glx_false_names _ (G3 e He)) as [N1 N2]. apply str_eqb_neq in N1. apply str_eqb_neq in N2.
+      rewrite N1, N2. reflexivity.
+    + unfold owned_set. rewrite (G2 (fst e) (in_map fst _ _ He)). reflexivity.
+Qed.
+
+Section Wf.
+Variable H : str -> str.
+Variable host : str.
+
+Lemma keys_nodup_bool l : NoDup (map fst l) -> forallb (fun x : str * bool => strs_nodup_key (fst x) l) l = true.
+Proof.
+  intros Hn. assert (forall k, (List.length (filter (fun x : str * bool => str_eqb k (fst x)) l) <= 1)%nat) as Hk.
+  { intros k. induction l as [|a l IH]; [simpl; lia|]. cbn [map] in Hn. inversion Hn as [|? ? H1 H2]. subst.
+    cbn [filter]. destruct (str_eqb_spec k (fst a)) as [E|E]; [|apply IH; exact H2].
+    cbn [List.length]. assert (filter (fun x : str * bool => str_eqb k (fst x)) l = []) as Ef.
+    { apply forallb_filter_nil. intros x Hx. apply str_eqb_neq. intros E'. apply H1. rewrite <- E, E'. apply in_map. exact Hx. }
+    rewrite Ef. simpl. lia. }
+  apply forallb_forall. intros x _. unfold strs_nodup_key. apply N.leb_le. specialize (Hk (fst x)). lia.
+Qed.
+
+(** every kernel a successful Run leaves is consistent and has the shape of galaxy-written state *)
+Lemma post_wf c k k' :
+  kernel_consistent k = true -> Pre H host c k -> Post H host c k k' ->
+  kernel_consistent k' = true /\ glx_shape k' = true.
+Proof.
+  intros Hk HP HQ. pose proof (post_pre H host c k k' HP HQ) as HP'.
+  destruct HQ as [Q1 Q2 Q3 Q4 Q5 Q6 Q7 Q8 Q9 Q10 Q11 Q12 Q13 Q14].
+  unfold kernel_consistent in Hk. rewrite !andb_true_iff in Hk.
+  destruct Hk as [[[[[[[[_ _] _] _] _] Rok] Sty] Snd] Cfor]. rewrite forallb_forall in Rok, Sty, Snd, Cfor.
+  set (pols := compile H c) in *. set (ps := local_pods host c) in *.
+  set (t := k_filter k) in *. set (t' := k_filter k') in *. set (s := k_sets k) in *. set (s' := k_sets k') in *.
+  pose proof (compile_names_glx H c) as Hg. fold pols in Hg.
+  assert (forall n x, In (n, x) s' -> has_prefix glx n = true ->
+            exists cs, In cs (all_sets pols) /\ n = cs_name cs /\ cset_eqv cs x = true /\ NoDup (map fst (s_elems x))) as Howned.
+  { intros n x Hin Hgn. pose proof (In_slookup n x _ Q3 Hin) as L. destruct (mem n (map cs_name (all_sets pols))) eqn:Em.
+    - apply mem_In in Em. apply in_map_iff in Em. destruct Em as [cs [E Hcs]]. subst n. exists cs.
+      destruct (Q1 cs Hcs) as [x1 [L1 [C1 N1]]]. fold s' in L1. rewrite L in L1. inversion L1. subst x1. tauto.
+    - apply mem_false in Em. pose proof (Q2 n Em) as E. fold s' in E. rewrite L, Hgn in E. discriminate. }
+  assert (forall n x, In (n, x) s' -> has_prefix glx n = false -> In (n, x) s) as Hforeign.
+  { intros n x Hin Hgn. pose proof (In_slookup n x _ Q3 Hin) as L. rewrite Q2, Hgn in L.
+    - apply slookup_In. exact L.
+    - intros Hm. apply in_map_iff in Hm. destruct Hm as [cs [E Hcs]]. apply Hg in Hcs. congruence. }
+  assert (forall n, has_prefix glx n = false -> In n (set_names s) -> In n (set_names s')) as Fset.
+  { intros n Hgn Hn. apply slookup_In_names. rewrite Q2, Hgn; [apply slookup_In_names; exact Hn|].
+    intros Hm. apply in_map_iff in Hm. destruct Hm as [cs [E Hcs]]. apply Hg in Hcs. congruence. }
+  assert (forall y, has_chain y t = true -> has_prefix glx y = false \/ y = ingress_chain \/ y = egress_chain ->
+                    has_chain y t' = true) as Fchain.
+  { intros y Hc [Hy|[Hy|Hy]].
+    - destruct (hook_chain y) eqn:Hh.
+      + destruct (Q11 y Hh) as [rs [rs' [_ [L _]]]]. eapply has_chain_some. exact L.
+      + destruct (glx_false_names y Hy) as [N1 N2]. unfold has_chain.
+        rewrite (Q14 y (glx_false_plcy y Hy) (glx_false_pod y Hy) N1 N2 Hh). exact Hc.
+    - subst y. destruct Q9 as [X _]. fold t t' in X. rewrite X, Hc. reflexivity.
+    - subst y. destruct Q10 as [X _]. fold t t' in X. rewrite X, Hc. reflexivity. }
+  (* an old rule of a foreign chain is still installable and still names nothing GLX-owned but the two hook chains *)
+  assert (forall x rs0 r, In (x, rs0) t -> has_prefix glx x = false -> In r rs0 ->
+            rule_ok (set_names s') t' r = true /\
+            ((negb (owned_chain (r_target r)) || str_eqb (r_target r) ingress_chain || str_eqb (r_target r) egress_chain) &&
+             forallb (fun s => negb (owned_set s)) (rule_sets r)) = true) as Old.
+  { intros x rs0 r Hin Hgx Hr. pose proof (Rok _ Hin) as R. cbn [snd] in R. rewrite forallb_forall in R. specialize (R r Hr).
+    pose proof (Cfor _ Hin) as C. cbn [fst snd] in C. unfold owned_chain in C at 1. rewrite Hgx in C. cbn [orb] in C.
+    rewrite forallb_forall in C. specialize (C r Hr). split; [|exact C].
+    apply andb_true_iff in C. destruct C as [C1 C2]. unfold rule_ok in *. apply andb_true_iff in R. destruct R as [R1 R2].
+    apply andb_true_iff. split.
+    - apply orb_true_iff in R1. destruct R1 as [R1|R1]; [rewrite R1; reflexivity|]. apply andb_true_iff in R1.
+      destruct R1 as [R1 R1']. rewrite R1', andb_true_r. apply orb_true_iff. right. apply (Fchain _ R1).
+      rewrite !orb_true_iff, negb_true_iff, !str_eqb_eq in C1. unfold owned_chain in C1. tauto.
+    - rewrite forallb_forall in R2, C2. apply forallb_forall. intros n Hn. apply mem_In. apply Fset.
+      + apply negb_true_iff. exact (C2 n Hn).
+      + apply mem_In. exact (R2 n Hn). }
+  assert (forall p a, In p ps -> pod_ip p = Some a -> in_selected pols p || eg_selected pols p = true ->
+            has_chain (pod_chain H p) t' = true) as Hpc.
+  { intros p a Hp Ea Hs. eapply has_chain_some. rewrite (Q7 p Hp). unfold wants. rewrite Hs, Ea. reflexivity. }
+  (* every rule of the new table is installable *)
+  assert (forall x rs r, tlookup x t' = Some rs -> In r rs ->
+            rule_ok (set_names s') t' r = true /\
+            (has_prefix glx x = false ->
+             ((negb (owned_chain (r_target r)) || str_eqb (r_target r) ingress_chain || str_eqb (r_target r) egress_chain) &&
+              forallb (fun s => negb (owned_set s)) (rule_sets r)) = true)) as New.
+  { intros x rs r Hl Hr. destruct (has_prefix plcy_prefix x) eqn:E1.
+    { split; [|intros X; rewrite (plcy_is_glx x E1) in X; discriminate].
+      assert (In x (map (chain_of H) pols)) as Hx by (apply Q6; [exact E1|eapply has_chain_some; exact Hl]).
+      apply in_map_iff in Hx. destruct Hx as [cp [E Hcp]]. subst x. fold t' in Q5. rewrite (Q5 cp Hcp) in Hl. inversion Hl. subst rs.
+      destruct (policy_chain_rule_shape cp r) as [Ht Hs]; [|exact Hr|].
+      { intros cs Hcs. apply Hg. eapply cpolicy_sets_in_all; eassumption. }
+      unfold rule_ok. rewrite Ht. replace (is_std_target (L "ACCEPT")) with true by reflexivity. cbn [orb andb].
+      apply forallb_forall. intros n Hn. apply mem_In. destruct (Hs n Hn) as [cs [Hcs E]]. subst n.
+      destruct (Q1 cs (cpolicy_sets_in_all cp pols cs Hcp Hcs)) as [x [L _]]. apply slookup_In_names. fold s' in L. congruence. }
+    destruct (has_prefix pod_prefix x) eqn:E2.
+    { split; [|intros X; rewrite (pod_is_glx x E2) in X; discriminate].
+      destruct (Q8 x E2 (has_chain_some _ _ _ Hl)) as [p [Hp [Hw E]]]. subst x. fold t' in Q7. rewrite (Q7 p Hp), Hw in Hl.
+      inversion Hl. subst rs. apply (pod_chain_rules_ok H pols p (set_names s') t'); [|exact Hr].
+      intros cp Hcp _. eapply has_chain_some. exact (Q5 cp Hcp). }
+    assert (forall (hk : pod -> N -> rule) sel, good_hook H hk ->
+              (forall p, sel p = true -> in_selected pols p || eg_selected pols p = true) ->
+              In r (flat_map (fun p : pod => match pod_ip p with Some a => if sel p then [hk p a] else [] | None => [] end) ps) ->
+              rule_ok (set_names s') t' r = true) as Hside.
+    { intros hk sel Hgk Hsel Hin. destruct (want_hooks_In hk sel ps r Hin) as [p [a [Hp [Ea [Es Er]]]]]. subst r.
+      destruct (Hgk p a) as [G1 G2]. apply rule_ok_chain; [rewrite G1; apply (Hpc p a Hp Ea (Hsel p Es))| |exact G2].
+      rewrite G1. apply pod_chain_not_builtin. }
+    destruct (str_eqb_spec x ingress_chain) as [E3|E3].
+    { subst x. split; [|intros X; discriminate]. rewrite <- (chain_rules_some _ _ _ Hl) in Hr. destruct Q9 as [_ [_ Y3]]. apply Y3 in Hr.
+      apply (Hside (in_hook H) (in_selected pols) (in_hook_good H)); [intros p E; rewrite E; reflexivity|exact Hr]. }
+    destruct (str_eqb_spec x egress_chain) as [E4|E4].
+    { subst x. split; [|intros X; discriminate]. rewrite <- (chain_rules_some _ _ _ Hl) in Hr. destruct Q10 as [_ [_ Y3]]. apply Y3 in Hr.
+      apply (Hside (eg_hook H) (eg_selected pols) (eg_hook_good H)); [intros p E; rewrite E; apply orb_true_r|exact Hr]. }
+    destruct (has_prefix glx x) eqn:Hgx.
+    { exfalso. pose proof (p_kind H host c k' HP' x (has_chain_some _ _ _ Hl) Hgx) as E. unfold glx_kind in E.
+      rewrite E1, E2 in E. apply str_eqb_neq in E3. apply str_eqb_neq in E4. rewrite E3, E4 in E. discriminate. }
+    destruct (hook_chain x) eqn:Hh.
+    + destruct (Q11 x Hh) as [rs0 [rs1 [L0 [L1 S1]]]]. fold t' in L1. rewrite Hl in L1. inversion L1. subst rs1.
+      destruct (existsb (wants pols) ps) eqn:Ex.
+      * destruct (strip_In H host r rs rs0 S1 Hr) as [X|X].
+        -- destruct (Q13 eq_refl) as [I1 [I2 _]]. fold t' in I1, I2. split; [|intros _; destruct X; subst r; reflexivity].
+           destruct X; subst r; apply rule_ok_chain; first [assumption|reflexivity|exact ingress_not_builtin|exact egress_not_builtin].
+        -- destruct (Old x rs0 r (tlookup_In _ _ _ L0) Hgx X) as [O1 O2]. split; [exact O1|intros _; exact O2].
+      * rewrite (Q12 (or_introl eq_refl) x Hh) in Hl. destruct (Old x rs r (tlookup_In _ _ _ Hl) Hgx Hr) as [O1 O2].
+        split; [exact O1|intros _; exact O2].
+    + fold t' in Q14. rewrite (Q14 x E1 E2 E3 E4 Hh) in Hl. destruct (Old x rs r (tlookup_In _ _ _ Hl) Hgx Hr) as [O1 O2].
+      split; [exact O1|intros _; exact O2]. }
+  split.
+  - unfold kernel_consistent. fold t' s'. rewrite !andb_true_iff. repeat split.
+    + apply strs_nodup_NoDup. exact Q4.
+    + apply strs_nodup_NoDup. exact Q3.
+    + exact (p_fwd H host c k' HP').
+    + exact (p_inp H host c k' HP').
+    + exact (p_out H host c k' HP').
+    + apply forallb_forall. intros [x rs] Hin. cbn [snd]. apply forallb_forall. intros r Hr.
+      exact (proj1 (New x rs r (In_tlookup _ _ _ Q4 Hin) Hr)).
+    + apply forallb_forall. intros [n x] Hin. cbn [fst snd]. destruct (has_prefix glx n) eqn:Hgn.
+      * destruct (Howned n x Hin Hgn) as [cs [Hcs [E [C _]]]]. subst n. rewrite (compile_set_types H c cs Hcs).
+        destruct (cset_eqv_parts cs x C) as [T _]. rewrite T. apply settype_eqb_refl.
+      * exact (Sty _ (Hforeign n x Hin Hgn)).
+    + apply forallb_forall. intros [n x] Hin. cbn [fst snd]. destruct (has_prefix glx n) eqn:Hgn.
+      * destruct (Howned n x Hin Hgn) as [cs [_ [_ [_ N]]]]. apply keys_nodup_bool. exact N.
+      * exact (Snd _ (Hforeign n x Hin Hgn)).
+    + apply forallb_forall. intros [x rs] Hin. cbn [fst snd]. unfold owned_chain at 1.
+      destruct (has_prefix glx x) eqn:Hgx; [reflexivity|]. cbn [orb]. apply forallb_forall. intros r Hr.
+      exact (proj2 (New x rs r (In_tlookup _ _ _ Q4 Hin) Hr) Hgx).
+  - unfold glx_shape. fold t' s'. rewrite !andb_true_iff. repeat split; apply forallb_forall.
+    + intros [x rs] Hin. cbn [fst]. unfold owned_chain. destruct (has_prefix glx x) eqn:Hgx; [|reflexivity].
+      apply (p_kind H host c k' HP' x); [eapply has_chain_some; apply (In_tlookup _ _ _ Q4 Hin)|exact Hgx].
+    + intros [x rs] Hin. cbn [fst snd]. destruct (has_prefix plcy_prefix x) eqn:E1; [reflexivity|]. cbn [orb].
+      apply forallb_forall. intros r Hr. apply forallb_forall. intros n Hn. apply negb_true_iff.
+      exact (p_setref H host c k' HP' x rs r n (In_tlookup _ _ _ Q4 Hin) E1 Hr Hn).
+    + intros [x rs] Hin. cbn [fst snd]. destruct (has_prefix pod_prefix x) eqn:E2; [|reflexivity]. cbn [negb orb].
+      apply forallb_forall. intros r Hr. destruct (has_prefix pod_prefix (r_target r)) eqn:Ht; [|reflexivity]. exfalso.
+      destruct (p_podref H host c k' HP' x rs r (In_tlookup _ _ _ Q4 Hin) Hr Ht) as [Y|[Y|Y]].
+      * rewrite (plcy_not_pod x Y) in E2. discriminate.
+      * subst x. discriminate.
+      * subst x. discriminate.
+    + intros [x rs] Hin. cbn [fst snd]. pose proof (In_tlookup _ _ _ Q4 Hin) as L.
+      destruct (str_eqb_spec x ingress_chain) as [E3|E3].
+      { subst x. cbn [orb negb]. apply rules_nodup_NoDup. destruct (p_in H host c k' HP') as [N _].
+        fold t' in N. rewrite (chain_rules_some _ _ _ L) in N. exact N. }
+      destruct (str_eqb_spec x egress_chain) as [E4|E4]; [|reflexivity].
+      subst x. cbn [orb negb]. apply rules_nodup_NoDup. destruct (p_eg H host c k' HP') as [N _].
+      fold t' in N. rewrite (chain_rules_some _ _ _ L) in N. exact N.
+    + intros [n x] Hin. cbn [fst snd]. unfold owned_set. destruct (has_prefix glx n) eqn:Hgn; [|reflexivity]. cbn [negb orb].
+      destruct (Howned n x Hin Hgn) as [cs [Hcs [_ [C _]]]]. destruct (cset_eqv_parts cs x C) as [_ [_ B]].
+      apply forallb_forall. intros e He. apply no_blank_wf. eapply compile_elems_wf; [exact Hcs|apply B; exact He].
+Qed.
+
+Theorem run_keeps_wf c k m m' k' :
+  hash_distinct H host c = true -> restart_pre H host c k = true -> run H host c (m, k) = (m', k', true) ->
+  kernel_consistent k' = true /\ glx_shape k' = true.
+Proof.
+  intros Hd Hp R. pose proof (pre_of_bool H host c k Hp) as HP. pose proof (hash_distinct_names H host c Hd) as Hn.
+  destruct (run_restart H host c k m HP Hn) as [k1 [R1 Q1]]. rewrite R in R1. inversion R1. subst m' k1.
+  apply (post_wf c k k'); [|exact HP|exact Q1].
+  unfold restart_pre, partial_pre in Hp. rewrite !andb_true_iff in Hp. tauto.
+Qed.
+End Wf.
